@@ -341,8 +341,98 @@ func runC04(r *Report, rng *rand.Rand, thorough bool) {
 			}
 		}
 	}
+	// ---- one operation with several optional parameters of every kind in every location: random subsets supplied
+	{
+		var scenarios []map[string]any
+		type mm struct {
+			fw       string
+			supplied map[string]string // name -> JSON text of the value
+		}
+		ms := map[string]mm{}
+		nSub := 6
+		if thorough {
+			nSub = 40
+		}
+		for _, fw := range Frameworks {
+			name := "par_" + fw + "_multi"
+			st := lab.Status[name]
+			if st == nil || !st.OK {
+				if st != nil {
+					r.Violate("lab_package_broken:"+name, trunc(st.GenerateError+" "+st.CompileError, 400), nil)
+				}
+				continue
+			}
+			for k := 0; k < nSub; k++ {
+				args := map[string]json.RawMessage{}
+				supplied := map[string]string{}
+				for i, p := range multiParams {
+					if k > 0 && rng.Intn(3) == 0 { // the first subset is the full set
+						continue
+					}
+					var v any
+					switch p[2] {
+					case "pass", "string":
+						v = fmt.Sprintf("v%d-%s", i, []string{"alpha", "beta", "gamma"}[rng.Intn(3)])
+					case "int":
+						v = 100*i + rng.Intn(100)
+					case "json":
+						v = map[string]string{"k": fmt.Sprintf("j%d", i)}
+					}
+					b, _ := json.Marshal(v)
+					args[p[0]] = b
+					supplied[p[0]] = string(b)
+				}
+				ab, _ := json.Marshal(args)
+				id := fmt.Sprintf("%s/multi/%d", name, k)
+				scenarios = append(scenarios, map[string]any{"id": id, "pkg": name, "opts": map[string]any{"short_circuit": -1, "strict_short_circuit": -1},
+					"client": map[string]any{"fn": "NewMultiRequest", "args": []json.RawMessage{ab}, "then_serve": true, "via_method": len(scenarios)%2 == 1}})
+				ms[id] = mm{fw, supplied}
+			}
+		}
+		results, err := lab.Run(scenarios)
+		if err != nil {
+			r.Violate("lab_run_failed", err.Error(), nil)
+		}
+		for _, sc := range scenarios {
+			id := sc["id"].(string)
+			res := results[id]
+			m := ms[id]
+			replay := map[string]any{"framework": m.fw, "scenario": sc, "supplied": m.supplied}
+			r.Count("multi/"+id, true)
+			r.Dist["several-parameters-in-one-operation"]++
+			if res == nil {
+				continue
+			}
+			var hs []LabEvent
+			for _, e := range res.Trace {
+				if e.Kind == "handler" {
+					hs = append(hs, e)
+				}
+			}
+			if res.Err != "" || len(hs) != 1 {
+				r.Violate("roundtrip/"+m.fw+"/several-parameters", fmt.Sprintf("%s /multi: error %q, %d handler calls, status %d %s", m.fw, res.Err, len(hs), res.Status, trunc(res.RespBody, 120)), replay)
+				continue
+			}
+			var got map[string]json.RawMessage
+			_ = json.Unmarshal(hs[0].Data["params"], &got)
+			var problems []string
+			for _, p := range multiParams {
+				g := string(got[p[0]])
+				if g == "null" {
+					g = ""
+				}
+				want := m.supplied[p[0]]
+				if (g == "") != (want == "") || (want != "" && !jsonEqual(json.RawMessage(g), json.RawMessage(want))) {
+					problems = append(problems, fmt.Sprintf("%s (%s, %s): supplied %s, received %s", p[0], p[1], p[2], orAbsent(want), orAbsent(g)))
+				}
+			}
+			if len(problems) > 0 {
+				r.Violate("roundtrip/"+m.fw+"/several-parameters", fmt.Sprintf("%s /multi: %s", m.fw, strings.Join(problems, "; ")), replay)
+			}
+		}
+	}
 	r.Exhaustive = true
-	r.Rule = "one operation whose path begins with a parameter (values with colons: URN, time, mailto, date-time); one operation with three path variables declared out of path order on both levels (client fills by position, server binds by name); every cell of location x style (incl. defaulted) x explode (default/true/false) x shape (string, int32, int64, double, bool, date, date-time, uuid, array of int, array of string, flat object; JSON-content parameters) x required/optional, for each of the 7 frameworks; per cell k values from a typed generator (integer extremes, strings over ASCII letters/digits, non-ASCII letters, space, URL-reserved punctuation, minus the style's own delimiters) plus the omitted-optional case; request built by the generated client builder, served by the generated server, arguments of the recording stub compared with the supplied ones; non-trivial = value outside plain alphanumerics"
+	r.Rule = "one operation with 22 optional parameters (pass-through, styled string / integer, JSON content; query, header, cookie; two of each) called with the full set and random subsets; one operation whose path begins with a parameter (values with colons: URN, time, mailto, date-time); one operation with three path variables declared out of path order on both levels (client fills by position, server binds by name); every cell of location x style (incl. defaulted) x explode (default/true/false) x shape (string, int32, int64, double, bool, date, date-time, uuid, array of int, array of string, flat object; JSON-content parameters) x required/optional, for each of the 7 frameworks; per cell k values from a typed generator (integer extremes, strings over ASCII letters/digits, non-ASCII letters, space, URL-reserved punctuation, minus the style's own delimiters) plus the omitted-optional case; request built by the generated client builder, served by the generated server, arguments of the recording stub compared with the supplied ones; non-trivial = value outside plain alphanumerics"
 }
 
 func wirePath(r *LabResult) string {
@@ -432,4 +522,11 @@ func runC04Escape(r *Report, rng *rand.Rand, thorough bool) {
 		r.Count("unescape/"+string(s), perr != nil || pu != string(s))
 		ucases.Add(fmt.Sprintf("(%s, %s, %s)", nl(s), opt(pu, perr), opt(qu, qerr)), map[string]any{"text": string(s)})
 	}
+}
+
+func orAbsent(s string) string {
+	if s == "" {
+		return "(absent)"
+	}
+	return s
 }
